@@ -84,6 +84,13 @@ def run_case(ctx):
         os.remove(f)
 
     out = os.path.join(ctx.scratch, "ugrid0")
+    if src.flag("hist.preexisting_output", 4):
+        # the output name already holds the product of an earlier run (another field and/or data type, same
+        # grid shape): it has to be replaced by what is asked for now
+        var0 = src.choice("hist.var", m.fields)
+        dtype0 = src.choice("hist.dtype", ["float32", "float64"])
+        run_whip(ctx, path, var0, dtype0, limit, out, Scripted({}))
+        ctx.probe("history.output_preexisting")
     o, calls = run_whip(ctx, path, var, dtype, limit, out, Scripted({}))
     check(o, out, "FIFO schedule")
     variants = variants_for(calls, ctx)
